@@ -102,6 +102,18 @@ def cases(T):
         add('O7.slerp_endpoint_t%d' % t, 'w_q_slerp_t%d{T}' % t, [In('a', 4), In('b', 4), Out('r', 4)], (lambda which: lambda I, O, X: [('slerp(q1,q2,%s) is the endpoint' % ('0' if which == 'a' else '1'), same(O['r'], I[which]))])(which),
             pre=notanti, setup=slerp_setup, allow_divzero=True, nvalid=0, budget=200, timeout_ms=20000, desc='slerp(q1,q2,%d) == q%d for unit quaternions that are not antipodal (both the small-angle and the sin(x)/x branch)' % (t, t + 1),
             bounds='all unit q1, q2 with q1 != -q2')
+    # extrapolation: slerp(q1,q2,2) is q1 reflected about q2 and slerp(q1,q2,-1) is q2 reflected about q1 (angle advances linearly: 2a resp. -a);
+    # needs sin(2x) = 2 sin x cos x (instantiated mechanically) and |sin x| <= |x| to rule out the small-angle branch when q1.q2 <= 9/10
+    def refl(p, about):
+        d = qdot(p, about)
+        return [rsub(rmul(rmul(rz(2), d), about[i]), p[i]) for i in range(4)]
+    apart = lambda I: [uq(I['a']), uq(I['b']), le(qdot(I['a'], I['b']), rz(Fraction(9, 10))), le(rz(Fraction(-9, 10)), qdot(I['a'], I['b']))]
+    add('O7.slerp_extrapolate_t2', 'w_q_slerp_t2{T}', [In('a', 4), In('b', 4), Out('r', 4)], lambda I, O, X: [('slerp(q1,q2,2) == 2(q1.q2)q2 - q1', same(O['r'], refl(I['a'], I['b'])))],
+        pre=apart, setup=slerp_setup, allow_divzero=True, nvalid=0, budget=400, timeout_ms=40000, core=False,
+        desc='slerp(q1,q2,2) is q1 reflected about q2: the 4-D angle keeps advancing linearly beyond t = 1', bounds='all unit q1, q2 with |q1.q2| <= 9/10')
+    add('O7.slerp_extrapolate_tm1', 'w_q_slerp_tm1{T}', [In('a', 4), In('b', 4), Out('r', 4)], lambda I, O, X: [('slerp(q1,q2,-1) == 2(q1.q2)q1 - q2', same(O['r'], refl(I['b'], I['a'])))],
+        pre=apart, setup=slerp_setup, allow_divzero=True, nvalid=0, budget=400, timeout_ms=40000, core=False,
+        desc='slerp(q1,q2,-1) is q2 reflected about q1: the angle runs backwards linearly below t = 0', bounds='all unit q1, q2 with |q1.q2| <= 9/10')
     add('O7.slerpShortestArc_endpoint_t0', 'w_q_slerp_shortest_t0{T}', [In('a', 4), In('b', 4), Out('r', 4)], lambda I, O, X: [('slerpShortestArc(q1,q2,0) == q1', same(O['r'], I['a']))],
         pre=lambda I: [uq(I['a']), uq(I['b']), ne(qdot(I['a'], I['b']), rz(0))], setup=slerp_setup, allow_divzero=True, nvalid=0, budget=200, timeout_ms=20000,
         desc='slerpShortestArc(q1,q2,0) == q1', bounds='all unit q1, q2 that are not orthogonal in 4-D')
